@@ -38,6 +38,14 @@ Theorem C18_devgas_runs_once_after_fee_deduction :
   devgas_bank_keeper_wiring = "app.BankKeeper".
 Proof. vm_compute. repeat split; reflexivity. Qed.
 
+(** The fee collector is among the module accounts the bank keeper is told to block
+    (app_config.go: blockAccAddrs, wired as BlockedModuleAccountsOverride): a withdrawer equal to
+    the fee collector can never be paid — [Proofs.env_ok]. *)
+Theorem C18_fee_collector_is_blocked :
+  occurrences "authtypes.FeeCollectorName" blocked_module_accounts = 1 /\
+  blocked_override_wiring = "blockAccAddrs".
+Proof. vm_compute. split; reflexivity. Qed.
+
 (** FeePayLogic computes, per fee coin, RoundInt(QuoInt64(MulInt(share, amount), n)) and
     settleFeePayments sends that one coin set from the fee collector to every recipient, on the
     tx's own fee filtered by getAllowedFees — the shape modelled by [Model.per_recipient],
